@@ -553,6 +553,15 @@ impl WriteBackend for LocalBackend {
                 return Err(err);
             }
         }
+        // verification hook: observe (and optionally interrupt at) the point where the temporary
+        // file is complete but not yet published
+        #[cfg(rustic_core_verif)]
+        if !verif_hooks::pre_publish(&filename_tmp, &filename) {
+            return Err(RusticError::new(
+                ErrorKind::InputOutput,
+                "verification hook: write interrupted before publishing",
+            ));
+        }
         // rename temporary file to real file
         fs::rename(&filename_tmp, &filename).map_err(|err| {
             RusticError::with_source(
@@ -601,5 +610,26 @@ impl WriteBackend for LocalBackend {
             warn!("post-delete: {}", err.display_log());
         }
         Ok(())
+    }
+}
+
+/// Hooks for the external verification harness (only compiled with `--cfg rustic_core_verif`)
+#[cfg(rustic_core_verif)]
+pub mod verif_hooks {
+    use std::{path::Path, sync::Mutex};
+
+    type Callback = Box<dyn Fn(&Path, &Path) -> bool + Send>;
+
+    static PRE_PUBLISH: Mutex<Option<Callback>> = Mutex::new(None);
+
+    /// Install (or remove) the callback invoked with (temporary path, final path) after the temporary
+    /// file has been written and synced and before it is renamed. Returning `false` makes
+    /// `write_bytes` stop there with an error, leaving the temporary file behind (an interruption).
+    pub fn set_pre_publish(cb: Option<Callback>) {
+        *PRE_PUBLISH.lock().unwrap() = cb;
+    }
+
+    pub(super) fn pre_publish(tmp: &Path, fin: &Path) -> bool {
+        PRE_PUBLISH.lock().unwrap().as_ref().is_none_or(|cb| cb(tmp, fin))
     }
 }
